@@ -99,6 +99,12 @@ impl BarState {
         self.state.est.prev_steps = self.state.pos();
     }
 
+    /// The position the bar starts from is not progress made since its creation.
+    pub(crate) fn set_initial_position(&mut self, pos: u64) {
+        self.state.set_pos(pos);
+        self.state.est.prev_steps = pos;
+    }
+
     pub(crate) fn update(&mut self, now: Instant, f: impl FnOnce(&mut ProgressState), tick: bool) {
         f(&mut self.state);
         if tick {
